@@ -1,6 +1,9 @@
 import Ypv.Lemmas.Doc
 import Ypv.Lemmas.EvalKwLoc
 import Ypv.Lemmas.WriteSim
+import Ypv.Lemmas.PathResolve
+import Ypv.Lemmas.PathPop
+import Ypv.Lemmas.PathDecode
 /-!
 # C02 — every result locates its node
 
@@ -11,13 +14,18 @@ reported parent address resolves to a node in which the reported parentref desig
 reference designating the next step inside the node the prefix resolves to (`ancestry_is_chain`),
 and parent / parentref / ancestry / path sections have the chain structure of `coords_chain`.
 
-NOT proved (`path_reresolves`, PARTIAL): that the reported path *text* re-parses (parser model, with
-`escape_path_section` quoting) to segments that select exactly the address.  Full statement:
-  theorem path_reresolves : Loc d n c → select mt dsc rt (parse (dotted c.path)) (d, root) = [(n, c)]
-    (or every sibling bearing the anchor when the last section is `[&name]`)
-Missing: the composition with the parser lemmas `parse_escapeSection` (C08, another builder).  It is
-checked on the real code for every generated result (re-query through the real parser and
-Processor, keys over the whole escapable punctuation set) by `harness/props/c02.py`.
+`path_reresolves` (FULL, both notations): the text `str(result.path)` — the `YAMLPath` object the
+evaluator accumulates section by section (`YAMLPath("") + section + …`, `Model/PathAcc.lean`),
+stringified by the library's own `__str__` (C08 object model), also after `path.separator = FSLASH` —
+parses, separator inferred, to segments which, evaluated from the document root, select exactly the
+result's node, once, at its address.  Excluded classes, each an explicit decidable hypothesis with a
+kernel-checked witness: twin keys `{1: x, '1': y}` (`W1.docClear`), key texts the notation cannot
+write (empty, `*` inside, leading `&`, only control white space) and texts with two adjacent
+backslashes, which `escape_path_section` copies unescaped (finding C07-K6) (`Sec.ok`), anchors borne by
+several children of one parent (`aloneAlong`; for those `path_reresolves_aliased`: the path denotes
+every bearer, in document order).  Keyword and collector segments are outside these theorems
+(`plainKind`; `[parent()]` past an `[&anchor]` section keeps the section in the text — finding C02-K5,
+a defect of `YAMLPath.pop`, C08's function — judged directly on the real code by the check).
 -/
 namespace Ypv.C02
 open Ypv Ypv.Eval Gen
@@ -166,12 +174,12 @@ theorem coords_reresolve {d : Node} (hd : d.WF) (hc : W1.docClear d = true) (seg
   W1.coords_reresolve_loc mt' dsc' d hd
     (W1.locClear_of_loc (results_located (mt := mt) (dsc := dsc) (rt := rt) hd segs hk _ h) hc)
 
-/-- **The canonical path text re-resolves** (PARTIAL — see the header for the full statement and the
-missing hypothesis `str(result.path) = write false (W1.pathSegsS c)`).  For a located node of a
+/-- **The canonical path text re-resolves** (the statement about `str(result.path)` itself is
+`path_reresolves` below).  For a located node of a
 well-formed document without twin keys whose keys the notation can express (`wfSegs`: no empty key,
 no `*` inside, no leading `&`), the dot-notation text `write false (W1.pathSegsS c)` parses to segments
 which, evaluated from the root, select exactly that node at its address. -/
-theorem path_reresolves_partial {d n : Node} {c : Ctx} (hd : d.WF) (hc : W1.docClear d = true) (hl : Loc d n c)
+theorem canonical_path_reresolves {d n : Node} {c : Ctx} (hd : d.WF) (hc : W1.docClear d = true) (hl : Loc d n c)
     (hwf : wfSegs (W1.pathSegsS c) = true) (mt' : Matcher) (dsc' : Desc) :
     ∃ sg, parseWith false true (write false (W1.pathSegsS c)) = .ok sg ∧
       ∃ c', required mt' dsc' d (sg.map ESeg.ofSeg) (.real (d, Ctx.root)) = Gen.one (.real (n, c')) ∧ c'.addr = c.addr := by
@@ -179,6 +187,209 @@ theorem path_reresolves_partial {d n : Node} {c : Ctx} (hd : d.WF) (hc : W1.docC
   · simpa using Sim.parseWith_write false true (W1.pathSegsS c) hwf
   · rw [W1.pathSegsS_eseg]
     exact W1.coords_reresolve_loc mt' dsc' d hd (W1.locClear_of_loc hl hc)
+
+/-! ## The reported path text re-resolves -/
+
+open Ypv.Acc in
+/-- **Every result's path sections are those of its steps.**  For a well-formed document, every real
+result `(n, c)` of a query (keyword and collector segments aside) is a located node whose path
+sections `c.path` are, step by step, the sections `ss` naming the steps of its address inside their
+parent nodes (`LocP`, `StepSec`): `[i]` for the reported index, the escaped text of the key (or of the
+digits that found an integer key), `[&a]` for a child bearing the anchor `a`. -/
+theorem results_pathed {d : Node} (hd : d.WF) (segs : List ESeg) (hk : ∀ s ∈ segs, plainKind s = true)
+    (n : Node) (c : Ctx) (h : Res.real (n, c) ∈ (required mt dsc rt segs (.real (d, Ctx.root))).1) :
+    ∃ ss, LocP d n c ss :=
+  allResLocE_required (mt := mt) (dsc := dsc) (rt := rt) hd segs hk (.real (d, Ctx.root)) LocE.root _ h
+
+open Ypv.Acc in
+/-- **path_reresolves** (dot notation: what `str(result.path)` returns).  `d` well-formed without twin
+keys; `(n, c)` located with path sections `ss`, all expressible (`Sec.ok`), every anchor they name borne
+by one child of its parent (`aloneAlong`).  Then the sections ARE the library's
+`escape_path_section` / `[i]` / `[&a]` texts; `str()` of the accumulated `YAMLPath` object succeeds;
+and its text, parsed with the separator inferred (as `YAMLPath(text)` does) and evaluated from the
+document root, selects exactly `n`, once, at the address `c.addr`. -/
+theorem path_reresolves {d n : Node} {c : Ctx} {ss : List Sec} (hd : d.WF) (hc : W1.docClear d = true)
+    (hl : LocP d n c ss) (hok : ss.all Sec.ok = true) (hal : aloneAlong d c.addr ss = true)
+    (mt' : Matcher) (dsc' : Desc) :
+    c.path = ss.map Sec.text ∧
+    ∃ S sg c', reported c = .ok S ∧ parse true S = .ok sg ∧
+      required mt' dsc' d (sg.map ESeg.ofSeg) (.real (d, Ctx.root)) = Gen.one (.real (n, c')) ∧
+      c'.addr = c.addr := by
+  have hok' : ∀ x ∈ ss, x.ok = true := by simpa using hok
+  obtain ⟨h1, S, h2, h3⟩ := reported_steps c ss hl.path.1 hok'
+  obtain ⟨c', h4, h5⟩ := resolve_steps mt' dsc' hd hc hl hal
+  refine ⟨h1, S, _, c', h2, h3, ?_, h5⟩
+  rw [List.map_map, ← h4]
+  congr 1
+  exact List.map_congr_left (fun x _ => eseg_ofSeg x)
+
+open Ypv.Acc in
+/-- **path_reresolves, either notation**: the same for the text `str(result.path)` returns after
+`result.path.separator = FSLASH` (`f = true`) or `= DOT` (`f = false`). -/
+theorem path_reresolves_as (f : Bool) {d n : Node} {c : Ctx} {ss : List Sec} (hd : d.WF)
+    (hc : W1.docClear d = true) (hl : LocP d n c ss) (hok : ss.all Sec.ok = true)
+    (hal : aloneAlong d c.addr ss = true) (mt' : Matcher) (dsc' : Desc) :
+    ∃ S sg c', reportedAs f c = .ok S ∧ parse true S = .ok sg ∧
+      required mt' dsc' d (sg.map ESeg.ofSeg) (.real (d, Ctx.root)) = Gen.one (.real (n, c')) ∧
+      c'.addr = c.addr := by
+  have hok' : ∀ x ∈ ss, x.ok = true := by simpa using hok
+  obtain ⟨S, h2, h3⟩ := reportedAs_steps f c ss hl.path.1 hok'
+  obtain ⟨c', h4, h5⟩ := resolve_steps mt' dsc' hd hc hl hal
+  refine ⟨S, _, c', h2, h3, ?_, h5⟩
+  rw [List.map_map, ← h4]
+  congr 1
+  exact List.map_congr_left (fun x _ => eseg_ofSeg x)
+
+open Ypv.Acc in
+/-- **path_reresolves, a path that names the node by an anchor several children bear** ("once per place
+it is aliased").  The last step is named `[&a]`; the steps before it satisfy the hypotheses of
+`path_reresolves`.  Then `str(result.path)`, parsed and evaluated from the root, selects exactly the
+children of the parent that bear the anchor `a`, in document order — and the result's node, at its
+address, is one of them. -/
+theorem path_reresolves_aliased {d n0 n : Node} {c0 : Ctx} {ss0 : List Sec} {r : Ref} {pr : PRef} {a : Str}
+    (hd : d.WF) (hc : W1.docClear d = true) (hl0 : LocP d n0 c0 ss0) (hch : n0.child? r = some n)
+    (hp : prefOk n0 pr r) (hs : StepSec n0 n pr (.anc a)) (hok : (ss0 ++ [Sec.anc a]).all Sec.ok = true)
+    (hal : aloneAlong d c0.addr ss0 = true) (mt' : Matcher) (dsc' : Desc) :
+    ∃ S sg c1 c', reported (c0.child r pr (Sec.anc a).mtext) = .ok S ∧ parse true S = .ok sg ∧
+      c1.addr = c0.addr ∧
+      required mt' dsc' d (sg.map ESeg.ofSeg) (.real (d, Ctx.root)) =
+        Gen.ofList (((anchorKids a n0 c1).filter (fun nc => nc.1.anchor == some a)).map Res.real) ∧
+      (n, c') ∈ (anchorKids a n0 c1).filter (fun nc => nc.1.anchor == some a) ∧
+      c'.addr = c0.addr ++ [r] := by
+  have hl : LocP d n (c0.child r pr (Sec.anc a).mtext) (ss0 ++ [.anc a]) := LocP.child r pr _ n hl0 hch hp hs
+  have hok' : ∀ x ∈ ss0 ++ [Sec.anc a], x.ok = true := List.all_eq_true.mp hok
+  obtain ⟨_, S, h2, h3⟩ := reported_steps _ _ hl.path.1 hok'
+  obtain ⟨c1, h4, h5⟩ := resolve_steps_aliased mt' dsc' hd hc hl0 hal a
+  obtain ⟨c', h6, h7⟩ := bearer_mem c1 hch hp hs
+  refine ⟨S, _, c1, c', h2, h3, h4, ?_, h6, by rw [h7, h4]⟩
+  rw [List.map_map, ← h5]
+  congr 1
+  exact List.map_congr_left (fun x _ => eseg_ofSeg x)
+
+open Ypv.Acc in
+/-- **path_reresolves for the results of a query**: `str(result.path)` as it is, and after the
+separator was set to either notation. -/
+theorem path_reresolves_query {d : Node} (hd : d.WF) (hc : W1.docClear d = true) (segs : List ESeg)
+    (hk : ∀ s ∈ segs, plainKind s = true) (n : Node) (c : Ctx)
+    (h : Res.real (n, c) ∈ (required mt dsc rt segs (.real (d, Ctx.root))).1) :
+    ∃ ss : List Sec, c.path = ss.map Sec.mtext ∧ ss.length = c.addr.length ∧
+      (ss.all Sec.ok = true → aloneAlong d c.addr ss = true → ∀ (mt' : Matcher) (dsc' : Desc),
+        (∃ S sg c', reported c = .ok S ∧ parse true S = .ok sg ∧
+          required mt' dsc' d (sg.map ESeg.ofSeg) (.real (d, Ctx.root)) = Gen.one (.real (n, c')) ∧
+          c'.addr = c.addr) ∧
+        ∀ f : Bool, ∃ S sg c', reportedAs f c = .ok S ∧ parse true S = .ok sg ∧
+          required mt' dsc' d (sg.map ESeg.ofSeg) (.real (d, Ctx.root)) = Gen.one (.real (n, c')) ∧
+          c'.addr = c.addr) := by
+  obtain ⟨ss, hl⟩ := results_pathed (mt := mt) (dsc := dsc) (rt := rt) hd segs hk n c h
+  exact ⟨ss, hl.path.1, hl.path.2, fun hok hal mt' dsc' =>
+    ⟨(path_reresolves hd hc hl hok hal mt' dsc').2, fun f => path_reresolves_as f hd hc hl hok hal mt' dsc'⟩⟩
+
+open Ypv.Acc in
+/-- **path_reresolves with hypotheses on the reported coordinates alone.**  `Sec.ofText` reads the step
+back from a section text (`ofText_mtext`), so the excluded classes are decidable predicates of the
+result `(n, c)` and the document: every real result of a query on a well-formed document without twin
+keys whose path sections denote expressible steps, each named anchor borne by one sibling only, reports
+a path whose `str()` — as it is, and in either notation after the separator was set — parses and
+evaluates, from the root, to exactly that node at its address. -/
+theorem path_reresolves_result {d : Node} (hd : d.WF) (hc : W1.docClear d = true) (segs : List ESeg)
+    (hk : ∀ s ∈ segs, plainKind s = true) (n : Node) (c : Ctx)
+    (h : Res.real (n, c) ∈ (required mt dsc rt segs (.real (d, Ctx.root))).1)
+    (hok : (c.path.map Sec.ofText).all Sec.ok = true)
+    (hal : aloneAlong d c.addr (c.path.map Sec.ofText) = true) (mt' : Matcher) (dsc' : Desc) :
+    (∃ S sg c', reported c = .ok S ∧ parse true S = .ok sg ∧
+      required mt' dsc' d (sg.map ESeg.ofSeg) (.real (d, Ctx.root)) = Gen.one (.real (n, c')) ∧
+      c'.addr = c.addr) ∧
+    ∀ f : Bool, ∃ S sg c', reportedAs f c = .ok S ∧ parse true S = .ok sg ∧
+      required mt' dsc' d (sg.map ESeg.ofSeg) (.real (d, Ctx.root)) = Gen.one (.real (n, c')) ∧
+      c'.addr = c.addr := by
+  obtain ⟨ss, h1, _, h3⟩ := path_reresolves_query (mt := mt) (dsc := dsc) (rt := rt) hd hc segs hk n c h
+  have hss : c.path.map Sec.ofText = ss := by rw [h1, ofText_map]
+  rw [hss] at hok hal
+  exact h3 hok hal mt' dsc'
+
+open Ypv.Acc in
+/-- **`[parent()]` and the reported path — C02-K5 as an explicit hypothesis.**  The evaluator model's
+`ctxUp c 1` (what `KeywordSearches.parent` leaves) drops the last path section; the library pops it
+with `YAMLPath.pop()`.  For coordinates whose sections are those of the steps `s0 :: r ++ [s]` (all
+expressible) and whose LAST section is not an anchor section, `pop()` on the accumulated object
+returns the last segment and leaves exactly the text of the object accumulated for `ctxUp c 1`.
+For an anchor section it does not (kernel-checked in `Lemmas/PathPop.lean`: `a.[&x]` stays `a.[&x]`). -/
+theorem pop_is_ctxUp (c : Ctx) (s0 : Sec) (r : List Sec) (s : Sec)
+    (hpath : c.path = (s0 :: (r ++ [s])).map Sec.mtext)
+    (hok : (s0 :: (r ++ [s])).all Sec.ok = true) (hna : s.isAnc = false) :
+    C08.popView (accObj c.path) = .ok (s.lseg.seg false, (accObj (ctxUp c 1).path).original) := by
+  have hok' : ∀ x ∈ s0 :: (r ++ [s]), x.ok = true := List.all_eq_true.mp hok
+  have hna' : ∀ a, s ≠ .anc a := by intro a h; subst h; simp [Sec.isAnc] at hna
+  have hup : (ctxUp c 1).path = (s0 :: r).map Sec.mtext := by
+    simp [ctxUp, hpath]
+  obtain ⟨hacc, hnt, _, _⟩ := raw_steps s0 r (fun x hx => hok' x (by
+    simp only [List.mem_cons, List.mem_append] at hx ⊢
+    rcases hx with h | h
+    · exact Or.inl h
+    · exact Or.inr (Or.inl h)))
+  rw [hpath, pop_section s0 r s hok' hna', hup, hacc]
+  simpa [PathObj.new, PathObj.setOriginal] using hnt.symm
+
+/-! ### The hypotheses of `path_reresolves` are met, and each excluded class is a real failure -/
+
+namespace Ex
+open Ypv.Acc
+
+/-- `{"a.b [c]": [1, &x {"/k": 2}]}` -/
+def inner : Node := .map (some ['x']) [(.str "/k".toList, .scalar none (.int 2))]
+def lst : Node := .seq none [.scalar none (.int 1), inner]
+def doc : Node := .map none [(.str "a.b [c]".toList, lst)]
+def ss : List Sec := [.key "a.b [c]".toList, .anc ['x'], .key "/k".toList]
+def c1 : Ctx := Ctx.root.child (.key (.str "a.b [c]".toList)) (.key (.str "a.b [c]".toList)) (Sec.key "a.b [c]".toList).mtext
+def c2 : Ctx := c1.child (.idx 1) (.idx 1) (Sec.anc ['x']).mtext
+def c3 : Ctx := c2.child (.key (.str "/k".toList)) (.key (.str "/k".toList)) (Sec.key "/k".toList).mtext
+
+/-- a located result three steps deep: a key full of punctuation, an anchored element named
+by its anchor, a key starting with `/` -/
+theorem located : LocP doc (.scalar none (.int 2)) c3 ss :=
+  LocP.child (ss := [.key "a.b [c]".toList, .anc ['x']]) _ _ (.key "/k".toList) _
+    (LocP.child (ss := [.key "a.b [c]".toList]) _ _ (.anc ['x']) inner
+      (LocP.child (ss := []) _ _ (.key "a.b [c]".toList) lst LocP.root (by decide +kernel) (by simp [doc, prefOk])
+        (.key _ _ rfl))
+      (by decide +kernel) (by simp [lst, prefOk, inRange, normIdx]) (.ancIdx _ _ rfl))
+    (by decide +kernel) (by simp [inner, prefOk]) (.key _ _ rfl)
+
+example : ss.all Sec.ok = true := by decide +kernel
+example : aloneAlong doc c3.addr ss = true := by decide +kernel
+example : W1.docClear doc = true := by decide +kernel
+/-- what `str(result.path)` is for it, and after `separator = FSLASH` -/
+example : reported c3 = .ok "a\\.b\\ \\[c\\][&x].\\/k".toList := by decide +kernel
+example : reportedAs true c3 = .ok "/a\\.b\\ \\[c\\][&x]/\\/k".toList := by decide +kernel
+
+/-- the hypotheses of `path_reresolves_result` are computed from the coordinates -/
+example : c3.path.map Sec.ofText = ss := by decide +kernel
+/-- … and the coordinates are those of a query result -/
+example : Res.real (.scalar none (.int 2), c3) ∈
+    (required (fun _ _ _ => .ok true) Desc.none doc [.key "a.b [c]".toList, .anchor ['x'], .key "/k".toList]
+      (.real (doc, Ctx.root))).1 := by decide +kernel
+
+/-- **C07-K6**: two adjacent backslashes — the library's `escape_path_section` copies the pair, the
+section reads back as the key `a\b`; excluded by `Sec.ok`. -/
+example : Sec.ok (.key ['a', '\\', '\\', 'b']) = false := by decide +kernel
+example : escapePathSection '.' ['a', '\\', '\\', 'b'] = ['a', '\\', '\\', 'b'] := by decide +kernel
+example : parse true (escapePathSection '.' ['a', '\\', '\\', 'b']) = .ok [(.key, .str ['a', '\\', 'b'])] := by
+  decide +kernel
+/-- … while a single backslash is escaped and reads back -/
+example : parse true (escapePathSection '.' ['a', '\\', 'b']) = .ok [(.key, .str ['a', '\\', 'b'])] := by
+  decide +kernel
+/-- keys the notation cannot write -/
+example : Sec.ok (.key []) = false := by decide +kernel
+example : Sec.ok (.key ['a', '*']) = false := by decide +kernel
+example : Sec.ok (.key ['&', 'a']) = false := by decide +kernel
+example : parse true (escapePathSection '.' ['a', '*']) = .ok [(.search, .search false .startsWith ['.'] ['a'])] := by
+  decide +kernel
+/-- an anchor borne by two elements: `[&x]` denotes both (`path_reresolves_aliased`) -/
+def twins : Node := .seq none [.scalar (some ['x']) (.int 1), .scalar (some ['x']) (.int 1)]
+example : aloneAlong twins [.idx 1] [.anc ['x']] = false := by decide +kernel
+example : ((required (fun _ _ _ => .ok true) Desc.none twins [.anchor ['x']] (.real (twins, Ctx.root))).1.map
+    (fun r => match r with | .real x => x.2.addr | .virt _ => [])) = [[.idx 0], [.idx 1]] := by decide +kernel
+
+end Ex
 
 /-! The excluded key classes, with witnesses: twin keys (`{1: x, '1': y}`: the path `1` finds the
 string key), and the keys the notation cannot write. -/
